@@ -223,3 +223,21 @@ V("c01-range-variances-from-means", "C01", "fire", LG, "                variance
 V("c01-silent-sampling-matrix", "C01", "silent", LG, "A = np.linalg.inv(np.eye(self.p) - W.T)", "A = utils.sampling_matrix(W)", what="sibling helper used")
 V("c01-silent-float-array", "C01", "silent", LG, "        means = self.means.astype(float)\n", "        means = np.array(self.means, dtype=float)\n", what="np.array(dtype=float)")
 V("c01-silent-not-none-guard", "C01", "silent", LG, "        if do_interventions:\n", "        if do_interventions is not None and len(do_interventions) > 0:\n", what="explicit None / empty guard")
+
+# ------------------------------------------------------------------------------- C02
+V("c02-row-mask", "C02", "fire", AN, "self.assignments[i](X[:, self.A[:, i] != 0])", "self.assignments[i](X[:, self.A[i, :] != 0])", rule="CASES", what="children passed as parents")
+V("c02-positive-mask", "C02", "fire", AN, "self.assignments[i](X[:, self.A[:, i] != 0])", "self.assignments[i](X[:, self.A[:, i] > 0])", rule="CASES", what="negative-weight parents dropped")
+V("c02-shift-no-original", "C02", "fire", AN, "noise = self.noise_distributions[i](n) + shift_interventions[i](n)", "noise = shift_interventions[i](n)", rule="CASES", what="shift replaces the noise")
+V("c02-noise-adds", "C02", "fire", AN, "                    noise = noise_interventions[i](n)\n", "                    noise = self.noise_distributions[i](n) + noise_interventions[i](n)\n", rule="CASES", what="noise intervention adds")
+V("c02-do-keeps-parents", "C02", "fire", AN, "                X[:, i] = do_interventions[i](n)\n", "                X[:, i] = do_interventions[i](n) + np.transpose(self.assignments[i](X[:, self.A[:, i] != 0]))\n", rule="CASES", what="do keeps the dependence on parents")
+V("c02-do-after-noise", "C02", "fire", AN, "            if i in do_interventions:", "            if i in do_interventions and i not in noise_interventions:", rule="CASES", what="noise overrides do")
+V("c02-double-draw", "C02", "fire", AN, "                X[:, i] = assignment + noise\n", "                X[:, i] = assignment + noise + self.noise_distributions[i](n) * 0\n", rule="CASES", what="extra draw", accept_inconclusive=True)
+V("c02-wrong-size", "C02", "fire", AN, "                    noise = self.noise_distributions[i](n)\n                X[:, i]", "                    noise = self.noise_distributions[i](self.p)\n                X[:, i]", rule="CASES", what="noise drawn with p instead of n")
+V("c02-natural-order", "C02", "fire", AN, "        for i in self.ordering:", "        for i in range(self.p):", rule="ORDER.loop", what="variables generated in index order")
+V("c02-order-of-other-matrix", "C02", "fire", AN, "        self.ordering = utils.topological_ordering(A)\n", "        self.ordering = utils.topological_ordering(A.T)\n", rule="ORDER.ctor", what="ordering of the transposed graph")
+V("c02-null-returns-none", "C02", "fire", FU, "def null(*args):\n    return 0", "def null(*args):\n    return None", rule="NULL.zero", what="null assignment is None")
+V("c02-shape-pxn", "C02", "fire", AN, "X = np.zeros((n, self.p))", "X = np.zeros((self.p, n))", rule="SHAPE", what="result transposed")
+V("c02-silent-sorted-parents", "C02", "silent", AN, "self.assignments[i](X[:, self.A[:, i] != 0])", "self.assignments[i](X[:, sorted(utils.pa(i, self.A))])", what="explicit sorted parent list")
+V("c02-silent-temp", "C02", "silent", AN, "                assignment = np.transpose(self.assignments[i](X[:, self.A[:, i] != 0]))\n", "                parents = self.A[:, i] != 0\n                f = self.assignments[i]\n                assignment = np.transpose(f(X[:, parents]))\n", what="temporaries")
+V("c02-silent-not-in", "C02", "silent", AN, "                elif i in noise_interventions:\n                    noise = noise_interventions[i](n)\n                # No intervention: sample noise from original distribution\n                else:\n                    noise = self.noise_distributions[i](n)",
+  "                elif i not in noise_interventions:\n                    noise = self.noise_distributions[i](n)\n                else:\n                    noise = noise_interventions[i](n)", what="branches swapped with negated test")
